@@ -253,9 +253,9 @@ Valid(h, nonce) ==
 OtherNonce(nonce) == Add32(nonce, <<1, 0, 0, 0>>)
 
 \* hex digits that, read at byte offset floor(odd/2) across the end of a
-\* root whose last digit is `last`, give size 2^h (h <= 3) and the nonce
+\* root whose last digit is (2^h) \div 16, give size 2^h (h <= 7) and the nonce
 CraftedTail(h, nonce) ==
-    <<2 ^ h, 0, 0, 0, 0, 0, 0>> \o
+    <<(2 ^ h) % 16, 0, 0, 0, 0, 0, 0>> \o        \* low digit of the size's first byte (its high digit is the root's last)
     SubSeq(ByteHex(nonce[1]) \o ByteHex(nonce[2]) \o ByteHex(nonce[3]) \o ByteHex(nonce[4]), 1, 8)
 
 ScriptMutations == {
